@@ -188,7 +188,7 @@ func replayRaceWitnesses(ctx *common.Ctx, raceBin, dir string) {
 		for k := 0; k < reps && !found; k++ {
 			j := job{ID: 0, Kind: "lisp", NMutex: w.NMutex, Caps: w.Caps, Cells: w.Cells, Setup: w.Setup, Runs: w.Runs, Results: w.Results,
 				Procs: []int{4, 8, 2}[k%3], HardMS: 8000}
-			outs := runJobs(raceBin, dir, []job{j}, []string{"GORACE=halt_on_error=0", "VERIF_C17_COLD=1"})
+			outs := runJobs(raceBin, dir, []job{j}, []string{"GORACE=halt_on_error=0"})
 			oc := outs[0]
 			for _, rep := range oc.Races {
 				if rx.MatchString(rep) {
@@ -327,6 +327,11 @@ func Run(ctx *common.Ctx) {
 		ctx.Hist("shape:" + p.Shape)
 		ctx.Hist("search:" + verdict)
 		ctx.Hist(fmt.Sprintf("procs:%d", p.Procs))
+		if p.Cold {
+			ctx.Hist("rendering:routine bodies are never-called functions")
+		} else {
+			ctx.Hist("rendering:one form per routine")
+		}
 		if obs.Crash {
 			ctx.Hist("outcome:process-died")
 		} else if oc.Res.Deadlock {
